@@ -9,7 +9,7 @@
 (* real HTTPReader._read_dechunk in HttpFramingTrace.                           *)
 EXTENDS HttpFramingDomains, TLC
 
-CONSTANT StreamDomain   \* "short" | "mutant" | "tiny" (all prefixes of one valid stream; for the coverage run)
+CONSTANT StreamDomain   \* "short" | "mutant" | "both" | "tiny" (all prefixes of one valid stream; for the coverage run)
 
 VARIABLES stream, pos, st, line, left, last, out, lenient, why, reads
 vars == <<stream, pos, st, line, left, last, out, lenient, why, reads>>
@@ -19,6 +19,7 @@ TinyBase == <<50, 13, 10, 120, 120, 13, 10, 49, 13, 10, 120, 13, 10, 48, 13, 10,
 ASSUME StreamDomain = "tiny" \/ TinyBase = Chunked(XBody(3), 2, "plain")
 Streams == CASE StreamDomain = "short" -> ShortStreams(ShortLen)
              [] StreamDomain = "mutant" -> MutantStreams(MutN, MutC)
+             [] StreamDomain = "both" -> ShortStreams(ShortLen) \cup MutantStreams(MutN, MutC)
              [] StreamDomain = "tiny" -> {SubSeq(TinyBase, 1, k) : k \in 0..Len(TinyBase)}
 
 Init == /\ stream \in Streams
